@@ -150,9 +150,14 @@ impl Sim {
         }
     }
 
+    /// `d` steps of 30 s.
     pub fn advance(&mut self, d: u64) {
-        self.clock.advance(d);
-        self.step("Advance", json!({"d": d}), |_| Ok(()));
+        self.advance_secs(d * crate::verif::world::STEP_SECS);
+    }
+
+    pub fn advance_secs(&mut self, secs: u64) {
+        self.clock.advance(secs);
+        self.step("Advance", json!({"d": secs}), |_| Ok(()));
     }
 
     /// Removes and returns the oldest outstanding request of the given kind sent to `peer`.
